@@ -21,12 +21,11 @@ func vFanTemplates(proj map[string]interface{}) []*vEntry {
 	v := vViewOf(proj)
 	var chans []string
 	members := map[string][]string{}
-	for _, c := range v.chans {
+	for _, k := range sortedKeys(v.chansAsIface()) {
+		c := v.chans[k]
 		name := c["name"].(string)
 		chans = append(chans, name)
-		for m := range c["mem"].(map[string]interface{}) {
-			members[name] = append(members[name], m)
-		}
+		members[name] = sortedKeys(c["mem"].(map[string]interface{}))
 	}
 	if len(chans) > 3 {
 		chans = chans[:3]
